@@ -7,6 +7,7 @@ section is validated by the concurrent driver against the real server (partial).
 -/
 import Chokan.Model.Runtime
 import Chokan.Model.Server
+import Chokan.Lemmas.Conc
 
 namespace Chokan.Props.C14
 open Chokan.Runtime Chokan.Gen.Server
@@ -121,5 +122,105 @@ theorem C14_answer_is_sequential (c : Cfg) (s0 : State) (before : List Op) (ctx 
   unfold convert
   cases getCandidates c.tables input (runOps c s0 before).dict ctx (toKkcFreq (runOps c s0 before).freq)
     c.nCandidates c.fuel <;> rfl
+
+
+/-! ## fine-grained interleavings (Model/Conc): one thread per in-flight request and per background loop,
+interleaved event by event; the event lists are regenerated from main.rs / method.rs on every run -/
+
+open Chokan.Conc in
+/-- Every control-flow path of every RPC handler and of every background loop, as extracted from the code, keeps
+the lock discipline under the one order `lockRank`: locks are taken in ascending order only and released by
+their holder, nothing waits for a message (or sends on a bounded channel) while it holds a lock, a handler
+never waits for a message at all, and every path ends holding nothing. -/
+theorem C14_conc_discipline :
+    (handlerPaths.all fun h => h.2.all fun p => disc lockRank chanUnbounded [] p && noWait chanUnbounded p) = true ∧
+    (taskPaths.all fun ps => ps.all fun p => disc lockRank chanUnbounded [] p) = true := by decide
+
+open Chokan.Conc in
+theorem conc_inv (reqs : List (List Ev)) (hreq : ∀ p ∈ reqs, ∃ h ∈ handlerPaths, p ∈ h.2)
+    (capOf : Chan → Nat) (sched : List (Nat × Nat)) :
+    Inv lockRank chanUnbounded (run (initSt chanUnbounded capOf reqs taskPaths) sched) ∧
+    ReqNoWait chanUnbounded (run (initSt chanUnbounded capOf reqs taskPaths) sched) := by
+  have hd := C14_conc_discipline
+  simp only [List.all_eq_true, Bool.and_eq_true] at hd
+  refine ⟨Inv_run sched (Inv_init _ _ _ _ _ ?_ ?_), ReqNoWait_run sched (ReqNoWait_init _ _ _ _ ?_)⟩
+  · intro p hp
+    obtain ⟨h, hh, hph⟩ := hreq p hp
+    exact (hd.1 h hh p hph).1
+  · intro ps hps p hp
+    exact hd.2 ps hps p hp
+  · intro p hp
+    obtain ⟨h, hh, hph⟩ := hreq p hp
+    exact (hd.1 h hh p hph).2
+
+open Chokan.Conc in
+/-- **Mutual exclusion** in every reachable state of every interleaving: no lock has two holders. -/
+theorem C14_conc_mutex (reqs : List (List Ev)) (hreq : ∀ p ∈ reqs, ∃ h ∈ handlerPaths, p ∈ h.2)
+    (capOf : Chan → Nat) (sched : List (Nat × Nat)) (i j : Nat) (ti tj : Thread) (l : Lock)
+    (hi : (run (initSt chanUnbounded capOf reqs taskPaths) sched).threads[i]? = some ti)
+    (hj : (run (initSt chanUnbounded capOf reqs taskPaths) sched).threads[j]? = some tj)
+    (hli : l ∈ ti.held) (hlj : l ∈ tj.held) : i = j :=
+  (conc_inv reqs hreq capOf sched).1.excl i j ti tj l hi hj hli hlj
+
+open Chokan.Conc in
+/-- **No deadlock, operationally.** For any number of concurrent requests of any kinds (each following any
+control-flow path of its handler), together with the background loops, and for every schedule: in the state
+reached, every request that is not finished either can take its next event, or is waiting for a lock while
+some thread that holds a lock can take *its* next event.  (A thread that holds a lock never waits for a
+message — `C14_conc_discipline` — so critical sections always run to their release.) -/
+theorem C14_conc_requests_never_stuck (reqs : List (List Ev)) (hreq : ∀ p ∈ reqs, ∃ h ∈ handlerPaths, p ∈ h.2)
+    (capOf : Chan → Nat) (sched : List (Nat × Nat)) (t : Thread)
+    (ht : t ∈ (run (initSt chanUnbounded capOf reqs taskPaths) sched).threads)
+    (hb : t.body = none) (hunf : t.rest ≠ []) :
+    enabled (run (initSt chanUnbounded capOf reqs taskPaths) sched) t = true ∨
+    ((∃ l r, t.rest = .acq l :: r) ∧
+      ∃ tj ∈ (run (initSt chanUnbounded capOf reqs taskPaths) sched).threads,
+        tj.held ≠ [] ∧ enabled (run (initSt chanUnbounded capOf reqs taskPaths) sched) tj = true) := by
+  obtain ⟨hinv, hnw⟩ := conc_inv reqs hreq capOf sched
+  cases hr : t.rest with
+  | nil => exact absurd hr hunf
+  | cons e r =>
+    by_cases hacq : ∃ l, e = .acq l
+    · obtain ⟨l, rfl⟩ := hacq
+      have hB : ∀ l, lockRank l ≤ 1 := by intro l; cases l <;> decide
+      rcases wait_chain_ends hinv 1 hB 1 t l r ht hr (by omega) with h | h
+      · exact Or.inl h
+      · exact Or.inr ⟨⟨l, r, rfl⟩, h⟩
+    · left
+      exact request_enabled hinv.cap hnw t ht hb e r hr (fun l h => hacq ⟨l, h⟩)
+
+open Chokan.Conc in
+/-- The same for the background loops: whichever thread waits for a lock, some lock holder can move. -/
+theorem C14_conc_lock_waiters_progress (reqs : List (List Ev)) (hreq : ∀ p ∈ reqs, ∃ h ∈ handlerPaths, p ∈ h.2)
+    (capOf : Chan → Nat) (sched : List (Nat × Nat)) (t : Thread) (l : Lock) (r : List Ev)
+    (ht : t ∈ (run (initSt chanUnbounded capOf reqs taskPaths) sched).threads) (hr : t.rest = .acq l :: r) :
+    enabled (run (initSt chanUnbounded capOf reqs taskPaths) sched) t = true ∨
+    ∃ tj ∈ (run (initSt chanUnbounded capOf reqs taskPaths) sched).threads,
+      tj.held ≠ [] ∧ enabled (run (initSt chanUnbounded capOf reqs taskPaths) sched) tj = true := by
+  have hB : ∀ l, lockRank l ≤ 1 := by intro l; cases l <;> decide
+  exact wait_chain_ends (conc_inv reqs hreq capOf sched).1 1 hB 1 t l r ht hr (by omega)
+
+open Chokan.Conc in
+/-- **A registered entry is never half-visible (code shape).** On every path of every background loop the trie
+and map insertions happen under the dictionary lock, and the whole loop over the entry's conjugated forms lies
+inside one critical section (the lock is neither released nor re-taken between the loop's start and end); every
+conversion computes its answer while it holds the dictionary and the learned counts. -/
+theorem C14_conc_merge_one_section :
+    (taskPaths.all fun ps => ps.all fun p =>
+      actUnder .trieInsert .dictionary p && actUnder .mapInsert .dictionary p &&
+      (!(p.contains (.act .mapInsert)) ||
+        (occursBefore (.act .loopStart) (.act .mapInsert) p && occursBefore (.act .mapInsert) (.act .loopEnd) p &&
+         sameSection (.act .loopStart) (.act .loopEnd) .dictionary p))) = true ∧
+    ((convertingPaths handlerPaths).all fun p => actUnder .compute .dictionary p && actUnder .compute .userPref p) = true ∧
+    (convertingPaths handlerPaths).length ≥ 2 := by decide
+
+/-- non-vacuity: two conversions, a confirmation and a registration in flight with the three background loops;
+after a schedule in which a conversion takes the dictionary and the confirmation the session store, the
+conversion waits for nothing and the state is as the invariant says -/
+example :
+    let reqs := (Chokan.Conc.convertingPaths handlerPaths) ++ (Chokan.Conc.pathsOf "UpdateFrequency" handlerPaths)
+    (∀ p ∈ reqs, ∃ h ∈ handlerPaths, p ∈ h.2) ∧ reqs.length = 5 ∧
+    ((Chokan.Conc.run (Chokan.Conc.initSt chanUnbounded (fun _ => 0) reqs taskPaths) [(0, 0), (2, 0), (1, 0)]).threads.map
+        (·.held)) = [[.dictionary], [], [.store], [], [], [], [], []] := by decide
 
 end Chokan.Props.C14
